@@ -3,6 +3,7 @@
 package app
 
 import (
+	"strings"
 	"encoding/json"
 	"fmt"
 	"os"
@@ -19,7 +20,7 @@ import (
 )
 
 // situation of one replica (h2..hN)
-var c04Situations = []string{"sync", "joining", "dead", "dead_health_ok", "dubious", "stopped", "error", "diverged", "lost_master", "cascade", "recovery", "lag_moving", "lag_stuck", "sync_not_in_list", "ahead"}
+var c04Situations = []string{"sync", "joining", "dead", "dead_health_ok", "dubious", "stopped", "error", "diverged", "lost_master", "cascade", "recovery", "recovery_dead", "recovery_dead_health_ok", "recovery_dubious", "lag_moving", "lag_stuck", "sync_not_in_list", "ahead"}
 
 type c04In struct {
 	N           int      `json:"n"`
@@ -93,7 +94,7 @@ func c04Run(in c04In) c04Out {
 		case "lost_master":
 			n.Chan = nil
 			n.RO, n.SuperRO = false, false
-		case "recovery":
+		case "recovery", "recovery_dead", "recovery_dead_health_ok", "recovery_dubious":
 			d.rawSet(pathRecovery, nil)
 			d.rawSet(dcs.JoinPath(pathRecovery, h), nil)
 		case "lag_moving", "lag_stuck":
@@ -118,7 +119,7 @@ func c04Run(in c04In) c04Out {
 	// situations that only show after the view was taken / differ between the two views
 	for i := 2; i <= in.N; i++ {
 		h := fmt.Sprintf("h%d", i)
-		switch in.Sits[i-2] {
+		switch strings.TrimPrefix(in.Sits[i-2], "recovery_") {
 		case "dead", "dead_health_ok", "dubious":
 			w.Mu.Lock()
 			w.KillLocked(w.Nodes[h])
@@ -127,9 +128,9 @@ func c04Run(in c04In) c04Out {
 			ns.PingOk = false
 			ns.SlaveState = nil
 			ns.SemiSyncState = nil
-			ns.PingDubious = in.Sits[i-2] == "dubious"
+			ns.PingDubious = strings.TrimPrefix(in.Sits[i-2], "recovery_") == "dubious"
 			state[h] = &ns
-			if in.Sits[i-2] == "dead" {
+			if strings.TrimPrefix(in.Sits[i-2], "recovery_") == "dead" {
 				c := ns
 				stateDcs[h] = &c
 			}
@@ -223,46 +224,9 @@ func c04Monitor(m *vk.Meta, in c04In, out c04Out) {
 			}
 		}
 	}
-	if !published {
-		return
-	}
-	for i := 2; i <= in.N; i++ {
-		h := fmt.Sprintf("h%d", i)
-		sit := in.Sits[i-2]
-		switch sit {
-		case "cascade":
-			if inList(h) {
-				m.Violation("the list never contains cascade replicas", in, h)
-			}
-		case "recovery":
-			if inList(h) {
-				m.Violation("the list never contains hosts marked for recovery", in, h)
-			}
-		case "diverged":
-			if inList(h) {
-				m.Violation("the list never contains replicas with diverged transactions", in, h)
-			}
-		case "stopped", "error", "lost_master":
-			if inList(h) {
-				m.Violation("the list never contains replicas that are not replicating from the master", in, h+" "+sit)
-			}
-		case "lag_moving", "lag_stuck":
-			if inList(h) && !out.Nodes[h].SSSlave {
-				m.Violations = append(m.Violations, map[string]any{"clause": "the list never contains replicas still too far behind in download to be made semi-sync", "input": in,
-					"detail": h + " (" + sit + ") is published in " + fmt.Sprint(out.Published) + " with rpl_semi_sync_slave_enabled=0", "signature": map[string]any{"cause": "download-lagging replica published while the count is computed without it"}})
-			}
-		case "dead":
-			ago := -1
-			if i-2 < len(in.FailedAgo) {
-				ago = in.FailedAgo[i-2]
-			}
-			if inList(h) && (ago >= 30 || !wasIn(h)) {
-				m.Violation("unreachable replicas leave the list after the inactivation delay (and never join)", in, fmt.Sprintf("%s failed %ds ago", h, ago))
-			}
-		}
-	}
 	// (a) and (b) for a completed, fault-free update on a healthy master (semi-sync configurations)
-	if in.SemiSync && out.Err == nil && in.Fault == nil && in.DcsFault == nil {
+	if in.SemiSync && out.Err == nil && in.Fault == nil && in.DcsFault == nil && out.HasList {
+		// (whether or not this update wrote the list: an update that decides nothing has to be done is a completed iteration too)
 		for h, n := range out.Nodes {
 			if h == "h1" || !n.Up || n.Chan == nil {
 				continue
@@ -288,6 +252,44 @@ func c04Monitor(m *vk.Meta, in c04In, out c04Out) {
 			mv.Violations = append(mv.Violations, map[string]any{"clause": "(b) the master waits for at least the number of acknowledgements implied by the published list", "input": in,
 				"detail": fmt.Sprintf("list=%v implies %d, master waits for %d (enabled=%v)", out.Published, req, mn.WaitCount, mn.SSMaster),
 				"signature": map[string]any{"cause": map[string]string{"other": "unclassified"}[c04Kind(in)] + map[string]string{"download-lagging replica published": "download-lagging replica published while the count is computed without it"}[c04Kind(in)]}})
+		}
+	}
+	if !published {
+		return
+	}
+	for i := 2; i <= in.N; i++ {
+		h := fmt.Sprintf("h%d", i)
+		sit := in.Sits[i-2]
+		switch sit {
+		case "cascade":
+			if inList(h) {
+				m.Violation("the list never contains cascade replicas", in, h)
+			}
+		case "recovery", "recovery_dead", "recovery_dead_health_ok", "recovery_dubious":
+			if inList(h) {
+				m.Violation("the list never contains hosts marked for recovery", in, h+" ("+sit+")")
+			}
+		case "diverged":
+			if inList(h) {
+				m.Violation("the list never contains replicas with diverged transactions", in, h)
+			}
+		case "stopped", "error", "lost_master":
+			if inList(h) {
+				m.Violation("the list never contains replicas that are not replicating from the master", in, h+" "+sit)
+			}
+		case "lag_moving", "lag_stuck":
+			if inList(h) && !out.Nodes[h].SSSlave {
+				m.Violations = append(m.Violations, map[string]any{"clause": "the list never contains replicas still too far behind in download to be made semi-sync", "input": in,
+					"detail": h + " (" + sit + ") is published in " + fmt.Sprint(out.Published) + " with rpl_semi_sync_slave_enabled=0", "signature": map[string]any{"cause": "download-lagging replica published while the count is computed without it"}})
+			}
+		case "dead":
+			ago := -1
+			if i-2 < len(in.FailedAgo) {
+				ago = in.FailedAgo[i-2]
+			}
+			if inList(h) && (ago >= 30 || !wasIn(h)) {
+				m.Violation("unreachable replicas leave the list after the inactivation delay (and never join)", in, fmt.Sprintf("%s failed %ds ago", h, ago))
+			}
 		}
 	}
 }
@@ -479,6 +481,32 @@ func TestVerifC04(t *testing.T) {
 		if json.Unmarshal(raw, &in) == nil {
 			add(in, run(in))
 			m.Count("corpus")
+		}
+	}
+	// steady membership, only the master's side is off: every listed replica is a healthy acker, nothing joins or
+	// leaves, the master's plugin is off or its count is wrong (mysqld restarted, an operator touched it)
+	for nn := 2; nn <= 5; nn++ {
+		for wc := 1; wc <= 3; wc++ {
+			for _, mf := range []bool{false, true} {
+				in := c04In{N: nn, SemiSync: true, WaitCfg: wc, MasterFirst: mf, FaultAt: -1}
+				old := []string{"h1"}
+				for i := 2; i <= nn; i++ {
+					in.Sits = append(in.Sits, "sync")
+					in.FailedAgo = append(in.FailedAgo, -1)
+					old = append(old, fmt.Sprintf("h%d", i))
+				}
+				in.OldActive = old
+				req := min(len(old)/2, wc)
+				for _, v := range []struct {
+					w  int
+					ss bool
+				}{{max(req, 1), false}, {req + 1, true}, {max(req-1, 1), req > 1}} {
+					x := in
+					x.MasterWait, x.MasterSS = v.w, v.ss
+					add(x, run(x))
+					m.Count("steady_master_side_off")
+				}
+			}
 		}
 	}
 	for i := 0; i < n; i++ {
